@@ -10,7 +10,12 @@
    What the harness adds on every run (lib/props/c17.py): it evaluates vector_code by vm_compute on the vectors the testdata
    plugin really emits (CasesC17_*.v, each with a kernel-checked lemma `shard_agrees` when all its labels agree), checks the
    file-name format, the coverage lemma on the real file list (C17Cover.v), and acceptance of the True vectors by the real
-   converter. *)
+   converter.
+   History stream (lib/c17_history.py): every theorem of LSP.ValidB / LSP.Strict used below is generic in the metamodel, so for
+   each EVOLVED sub-model m_i of a history the harness translates m_i (Gen/C17H<h>S<i>.v), re-proves the side conditions and the
+   two verdict theorems for it (Props/C17H<h>S<i>Wf.v: C17_hist_mm_wf, C17_hist_classes_distinct, C17_hist_code_0,
+   C17_hist_code_mislabelled, each "Closed under the global context") and evaluates vector_code on the files found in an output
+   directory that was populated for m_(i-1) before the plugin ran for m_i. *)
 From LSP Require Import Base MM ValidB Strict.
 From Gen Require Import MMData.
 Open Scope string_scope.
